@@ -468,6 +468,7 @@ type authRun struct {
 	tr     http.RoundTripper
 	fake   *authFake
 	config *authConfig
+	hdrs   map[string]http.Header
 }
 
 func newAuthRun() *authRun {
@@ -504,9 +505,18 @@ func (r *authRun) do(a *authReq) string {
 	if err != nil {
 		return "harness-error " + tok(err.Error())
 	}
-	for k, v := range r.fake.origHeader {
-		req.Header[k] = append([]string(nil), v...)
+	// a caller that keeps one header map per registry and uses it for every request it sends there
+	if r.hdrs == nil {
+		r.hdrs = map[string]http.Header{}
 	}
+	if r.hdrs[a.host] == nil {
+		h := http.Header{}
+		for k, v := range r.fake.origHeader {
+			h[k] = append([]string(nil), v...)
+		}
+		r.hdrs[a.host] = h
+	}
+	req.Header = r.hdrs[a.host]
 	if body != nil {
 		req.Body = body
 		req.ContentLength = int64(len("request body"))
